@@ -9,8 +9,9 @@ about: the record that is appended to `all_failures` (node_visitor.py:619‥733)
 * `e` defaults to the registered description of the code (:619‥623; `assert` when both are missing);
 * location extraction (:625‥629): `lineno`/`col_offset` only if the node has both;
 * `description`, `code` (:631‥640), `lineno` (:643‥647), `col_offset` (:648‥649);
-* the per-line ignore tests (:653‥669, including the `lines[lineno - 2]` wrap-around) — an
-  `IndexError` escapes when the line number lies beyond the file;
+* the per-line ignore tests (:659‥677; since fix 0cba813 an error on line 1 has no previous line — the
+  `lines[lineno - 2]` wrap-around is gone) — an `IndexError` escapes when the line number lies
+  beyond the file;
 * context rendering (:673‥686): up to `CONTEXT_LINES` lines around the position, `"%4d: %s"`, a caret
   under the column;
 * `message` (:637‥647, :685, :708).
@@ -134,7 +135,7 @@ def showError (env : Env) (lines : List Line) (st : St) (c : Call) : Option St :
             | some thisLine =>
               if trailingMatch thisLine c.code then
                 some { st with used := ((ln : Int) - 1) :: st.used }      -- :660
-              else match pyGet lines ((ln : Int) - 2) with                -- :662
+              else match (if 2 ≤ ln then pyGet lines ((ln : Int) - 2) else some []) with  -- :668‥670 (no previous line for ln < 2)
                 | none => none
                 | some prev =>
                   if ownLineMatch prev c.code then
